@@ -33,9 +33,12 @@ THEOREMS = [
      "(forall a b res, snd (multiply_into ops tw s a b res) = snd (multiply_into ops tw s' a b res)) /\\ "
      "(forall v n dest, (n = 0%nat \\/ exists m, n = (2 ^ m)%nat) -> "
      "snd (fft_into ops tw s v n dest) = snd (fft_into ops tw s' v n dest)) /\\ "
-     "(forall (v : list (F * F)) m dest, length v = (2 ^ m)%nat -> (length v <= length (R s))%nat -> "
-     "(length v <= length (R s'))%nat -> "
+     "(forall (v : list (F * F)) m dest, length v = (2 ^ m)%nat -> "
      "snd (fft_inv_into ops tw s v dest) = snd (fft_inv_into ops tw s' v dest))"),
+    ("c04_inv_old_refuted",
+     "exists (F : Type) (ops : Ops F) (tw : nat -> nat -> F * F) (s s' : st (F := F)) (v : list (F * F)) (dest : list Z), "
+     "reach ops tw s /\\ reach ops tw s' /\\ length v = (2 ^ 3)%nat /\\ "
+     "snd (fft_inv_into_old ops tw s v dest) <> snd (fft_inv_into_old ops tw s' v dest)"),
     ("c04_reach_closed",
      "forall (F : Type) (ops : Ops F) (tw : nat -> nat -> F * F) (s : st (F := F)), reach ops tw s -> "
      "(forall a b, reach ops tw (fst (multiply ops tw s a b))) /\\ "
@@ -60,20 +63,37 @@ THEOREMS = [
      "(forall a b j res, a <> [] -> b <> [] -> (S j <= Kmax)%nat -> (length a + length b - 1 <= 2 ^ S j)%nat -> "
      "(forall l, (l < length a + length b - 1)%nat -> inr (conv_coef a b l)) -> inr 0%Z -> "
      "snd (inv_prod_into ops tw s a b (2 ^ S j) res) = "
+     "zip_acc Z.add res (conv a b ++ repeat 0%Z (2 ^ S j - (length a + length b - 1)))) /\\ "
+     "(forall (s' : st (F := F)) a b j res, reach ops tw s' -> a <> [] -> b <> [] -> (S j <= Kmax)%nat -> "
+     "(length a + length b - 1 <= 2 ^ S j)%nat -> "
+     "(forall l, (l < length a + length b - 1)%nat -> inr (conv_coef a b l)) -> inr 0%Z -> "
+     "snd (inv_prod_x ops tw s s' a b (2 ^ S j) res) = "
      "zip_acc Z.add res (conv a b ++ repeat 0%Z (2 ^ S j - (length a + length b - 1))))"),
 ]
-RULE = ("histories of 1-7 calls on FFT<f64> objects: multiply / multiply_into (non-zero destinations, shorter and longer "
-        "than the product) / fft / fft_into / fft+product+fft_inv_into, length pairs from {0,1,2,3,4,5,7,8,9,15,16,17,31,32,33,40} "
+RULE = ("histories of 1-12 calls on FFT<f64> objects (two live objects: current + second): multiply / multiply_into (non-zero "
+        "destinations, shorter and longer than the product) / fft / fft_into / fft+product+fft_inv(_into) with the user's product "
+        "written x*y and x*=y, length pairs from {0,1,2,3,4,5,7,8,9,15,16,17,31,32,33,40} "
         "(all pairs with small coefficients, sampled pairs with coefficients of magnitude sqrt(1e12/max(len)) and mixed signs), "
         "reuse histories on one object (grow, shrink, grow; fft then multiply; explicit update_n) against a fresh object; "
-        "non-trivial = some product with both lengths >= 2 and at least one negative coefficient")
-TRUSTED = ["executor harness/crates/c04 (drives rlib_fft::FFT, prints integer outputs in decimal, floats and the hook's twiddle table as bit patterns)",
+        "forward transforms on one object and the inverse transform on ANOTHER one (fresh, Default, smaller than the spectrum, "
+        "larger, clone / clone_from taken before and after the forward transforms; fft_inv and fft_inv_into), swap, both "
+        "objects used further; aliased operands (both operands sub-slices of one allocation: p*p, p*p[..k] for k in "
+        "{0,1,len-1,random}, both orders, windows with a common tail / start; multiply, multiply_into, the fft route); "
+        "non-trivial = some product with both lengths >= 2 and at least one negative coefficient.  extra (implementation "
+        "only, both build profiles): symmetric envelope max^2*max(len) <= 1e12 incl. length ratios up to 2^14 (quick) / 2^20, "
+        "multiply_into / second object / reuse / over-grown / cloned objects at large n, every coefficient checked modulo "
+        "2^61-1; the crate's PUBLISHED table (rlib_fft::precision, read from the crate) probed at every frontier cell "
+        "(quick: L <= 3e5, thorough: up to L = 5e6) with lengths (L,L), (L-1,L), (L,L-1), (L-2,L), (L-1,L-1), (L/2+1,L/2+1), "
+        "values [A-back..=A] x [B-back..=B], back in {0,1000}, multiply / multiply_into / fft route, fresh and used objects")
+TRUSTED = ["executor harness/crates/c04 (drives rlib_fft::FFT, prints integer outputs in decimal, floats and the hook's twiddle table as bit patterns; "
+           "in envelope / published-table mode: its i128 schoolbook reference and its evaluation modulo 2^61-1)",
            "checks/c04.py (case generator, Coq term printer, envelope search driver)",
            "Coq primitive floats under vm_compute = IEEE-754 binary64 (only in the executed correspondence cases; no theorem mentions them)",
            "libm sin/cos are not modelled: the model is fed the implementation's own twiddle table through the oracle"]
-ASSUMPTIONS = ["usize/i64 arithmetic modelled without overflow (sizes <= 2^22, |coefficients of the product| < 2^63)",
+ASSUMPTIONS = ["usize/i64 arithmetic modelled without overflow (sizes <= 2^24, |coefficients of the product| < 2^63)",
                "the floating-point rounding-error bound inside the envelope (c04_rounding_partial) is NOT proved; it is "
-               "examined by search only (extra: implementation against exact i128 schoolbook convolution)"]
+               "examined by search only (extra: implementation against exact i128 schoolbook convolution and a modular "
+               "evaluation of all coefficients, in the symmetric envelope and at the frontier of the crate's published table)"]
 
 LENS = [0, 1, 2, 3, 4, 5, 7, 8, 9, 15, 16, 17, 31, 32, 33, 40]
 
@@ -124,8 +144,16 @@ def harness_line(c):
             t += ["T"] + tok_list(o[1]) + [str(o[2])]
         elif k == "TI":
             t += ["TI"] + tok_list(o[1]) + [str(o[2]), str(len(o[3]) // 2)] + [str(x) for x in o[3]]
-        elif k == "V":
-            t += ["V"] + tok_list(o[1]) + tok_list(o[2]) + [str(o[3])] + tok_list(o[4])
+        elif k in ("V", "V2", "X", "X2"):
+            t += [k] + tok_list(o[1]) + tok_list(o[2]) + [str(o[3])] + tok_list(o[4])
+        elif k in ("SW", "C", "CF"):
+            t += [k]
+        elif k == "MA":
+            t += ["MA"] + tok_list(o[1]) + [str(x) for x in o[2:6]]
+        elif k == "MIA":
+            t += ["MIA"] + tok_list(o[1]) + [str(x) for x in o[2:6]] + tok_list(o[6])
+        elif k == "VA":
+            t += ["VA"] + tok_list(o[1]) + [str(x) for x in o[2:6]] + [str(o[6])] + tok_list(o[7])
         else:
             raise ValueError(k)
     return " ".join(t)
@@ -163,15 +191,41 @@ def coq_term(c, obs, profile):
             ops.append("(OFft %s %d %s)" % (zl(o[1]), o[2], zpl(r)))
         elif k == "TI":
             ops.append("(OFftInto %s %d %s %s %s)" % (zl(o[1]), o[2], zpl(o[3]), zpl(r), zpl(plain)))
-        elif k == "V":
+        elif k in ("V", "V2"):         # V2: the user's pointwise product written with `*=`; the same model
             ops.append("(OInv %s %s %d %s %s)" % (zl(o[1]), zl(o[2]), o[3], zl(o[4]), zl(r)))
+        elif k in ("X", "X2"):         # forward transforms on the current object, inverse on the second one
+            ops.append("(OInvX %s %s %d %s %s)" % (zl(o[1]), zl(o[2]), o[3], zl(o[4]), zl(r)))
+        elif k == "SW":
+            ops.append("OSwap")
+        elif k in ("C", "CF"):         # clone() and clone_from(): the same copy in the model
+            ops.append("OClone")
+        # aliased operands: both are sub-slices of ONE allocation; the model is told the two slices only
+        elif k == "MA":
+            a, b = alias_slices(o)
+            ops.append("(OMul %s %s %s)" % (zl(a), zl(b), zl(r)))
+        elif k == "MIA":
+            a, b = alias_slices(o)
+            ops.append("(OMulInto %s %s %s %s)" % (zl(a), zl(b), zl(o[6]), zl(r)))
+        elif k == "VA":
+            a, b = alias_slices(o)
+            ops.append("(OInv %s %s %d %s %s)" % (zl(a), zl(b), o[6], zl(o[7]), zl(r)))
     return "(mkcase %s [%s])" % (zpl(table), ";".join(ops))
+
+
+def alias_slices(o):
+    return o[1][o[2]:o[3]], o[1][o[4]:o[5]]
+
+
+INV_KINDS = ("V", "V2", "X", "X2")
+ALIAS_KINDS = ("MA", "MIA", "VA")
 
 
 def products(c):
     for o in c["ops"]:
-        if o[0] in ("M", "MI", "V"):
+        if o[0] in ("M", "MI") + INV_KINDS:
             yield o[1], o[2]
+        elif o[0] in ALIAS_KINDS:
+            yield alias_slices(o)
 
 
 def nontrivial(c, obs):
@@ -180,7 +234,10 @@ def nontrivial(c, obs):
 
 def classify(c, obs):
     ks = {o[0] for o in c["ops"]}
-    kind = "inv" if "V" in ks else ("into" if ks & {"MI", "TI"} else ("fft" if "T" in ks else "mul"))
+    kind = ("inv2" if ks & {"X", "X2"} else "alias" if ks & set(ALIAS_KINDS) else "inv" if ks & {"V", "V2"}
+            else ("into" if ks & {"MI", "TI"} else ("fft" if "T" in ks else "mul")))
+    if ks & {"C", "CF", "SW"}:
+        kind += "+2obj"
     size = max([len(a) + len(b) for a, b in products(c)] + [0])
     cls = "n<=8" if size <= 9 else ("n<=32" if size <= 33 else "n<=128")
     return "%s/%s%s%s" % (kind, cls, "/reuse" if len(list(products(c))) > 1 else "",
@@ -318,8 +375,100 @@ def generate(rng, tier):
         la, lb = rng.choice(LENS[1:12]), rng.choice(LENS[1:12])
         pre = mk_op(rng, rng.choice(LENS[1:]), rng.choice(LENS[1:]), "M")
         v = mk_op(rng, la, lb, "V")
+        if v[0] == "V" and rng.chance(1, 3):
+            v = as_x(v, "V2")          # the pointwise product written with `*=`
         m = ["M", v[1], v[2]]
         cases.append({"ops": [pre, v, m, ["F"], v, m]})
+    cases += gen_two_objects(rng, tier)
+    cases += gen_aliased(rng, tier)
+    return cases
+
+
+def as_x(v, kind="X"):
+    return [kind] + v[1:]
+
+
+def gen_two_objects(rng, tier):
+    """(5) the inverse transform on ANOTHER object than the forward transforms: fresh (size 4), smaller than the
+    spectrum, larger, a clone taken before / after the forward transforms; fft_inv (all-zero destination of full
+    length) and fft_inv_into (non-zero, shorter, longer); then both objects are used further.  (5b) clone / clone_from /
+    swap mixed into ordinary histories; (5c) the user-side product written with `*=`."""
+    cases = []
+    pairs = [(1, 1), (1, 2), (2, 2), (2, 3), (3, 3), (4, 4), (5, 4), (4, 5), (8, 8), (9, 8), (7, 9), (16, 16), (17, 16),
+             (15, 17), (33, 32), (40, 40), (1, 40), (31, 2)]
+    if tier == "quick":
+        pairs = pairs[:3] + pairs[5:9] + [(17, 16), (33, 32), (1, 40)]
+    for la, lb in pairs:
+        tot = la + lb - 1
+        n = pow2_ge(tot)
+        a, b = mk_prod(rng, la, lb)
+        zero = [0] * n
+        m = ["M", a, b]
+        # very first calls of the process: forward on a fresh object, fft_inv on the other fresh object
+        cases.append({"ops": [["X", a, b, n, zero], m, ["SW"], m, ["X", a, b, 2 * n, dest(rng, 2 * n)]]})
+        # the forward object has grown, the inverting one is fresh / Default / smaller / larger
+        pre = mk_op(rng, rng.choice(LENS[8:]), rng.choice(LENS[8:]), "M")
+        small = rng.choice([1, 2, 4, max(4, n // 2)])
+        cases.append({"ops": [pre, ["X", a, b, n, dest(rng, rng.choice([n, tot, n + 1, max(tot - 1, 0)]))],
+                              ["SW"], ["D"], ["U", small], ["SW"], ["X2", a, b, n, zero],
+                              ["SW"], ["U", 4 * n], ["SW"], ["X", a, b, n, zero], m]})
+        # clone before the forward transforms (second object = copy of a grown / fresh object), clone_from after them
+        cases.append({"ops": [["C"], ["X", a, b, n, zero], pre, ["CF"], ["X", b, a, n, dest(rng, n)], ["SW"], m,
+                              ["F"], ["C"], ["SW"], ["V", a, b, n, zero]]})
+    for _ in range(25 if tier == "quick" else 400):
+        ops = []
+        for _ in range(rng.range(2, 7)):
+            r = rng.below(16)
+            if r == 0:
+                ops.append([rng.choice(["F", "D"])])
+            elif r == 1:
+                ops.append(["U", rng.choice([1, 2, 4, 8, 16, 32, 64, 128])])
+            elif r in (2, 3):
+                ops.append(["SW"])
+            elif r == 4:
+                ops.append(["C"])
+            elif r == 5:
+                ops.append(["CF"])
+            else:
+                la, lb = rng.choice(LENS[:12]), rng.choice(LENS[:12])
+                o = mk_op(rng, la, lb, rng.choice(["M", "MI", "V", "V", "V", "T", "TI"]))
+                if o[0] == "V":
+                    o = as_x(o, rng.choice(["X", "X", "X", "X2", "V2", "V"]))
+                ops.append(o)
+        cases.append({"ops": ops})
+    return cases
+
+
+def gen_aliased(rng, tier):
+    """(6) both operands are sub-slices of ONE allocation: the whole vector twice, a prefix of itself (k = 0, 1,
+    len-1, random), both orders, overlapping windows with a common tail / a common start, multiply / multiply_into /
+    the fft route."""
+    cases = []
+    lens = [1, 2, 3, 4, 5, 8, 9, 16, 17, 33] if tier == "quick" else [1, 2, 3, 4, 5, 7, 8, 9, 15, 16, 17, 31, 32, 33, 40]
+    reps = 1 if tier == "quick" else 6
+    for L in lens:
+        for _ in range(reps):
+            style = rng.choice(STYLES)
+            p = vec(rng, L, style, bound_for(L, L))
+            ks = sorted({0, 1, L - 1, rng.below(L + 1)})
+            i, j = rng.below(L), rng.below(L)
+            wins = [(0, L, 0, L)] + [(0, L, 0, k) for k in ks] + [(0, k, 0, L) for k in ks] + [(i, L, j, L), (0, L - i, 0, L - j),
+                                                                                                (i, L, 0, L - j)]
+            ops = []
+            for w in wins:
+                la, lb = w[1] - w[0], w[3] - w[2]
+                tot = la + lb - 1
+                kind = rng.choice(["MA", "MA", "MIA", "VA"])
+                if kind == "MA" or ((la == 0 or lb == 0) and kind == "VA"):
+                    ops.append(["MA", p] + list(w))
+                elif kind == "MIA":
+                    ops.append(["MIA", p] + list(w) + [dest(rng, rng.choice([max(tot, 0), max(tot, 0), tot + 2, max(tot - 1, 0)]))])
+                else:
+                    n = pow2_ge(tot)
+                    ops.append(["VA", p] + list(w) + [n, dest(rng, n) if rng.chance(1, 2) else [0] * n])
+            # histories of at most 6 calls: the first window (the square) on a fresh object in every one
+            for q in range(0, len(ops), 5):
+                cases.append({"ops": [["MA", p, 0, L, 0, L]] + ops[q:q + 5]})
     return cases
 
 
@@ -329,7 +478,22 @@ def shrink(c):
     for i in range(len(ops)):
         out.append({"ops": ops[:i] + ops[i + 1:]})
     for i, o in enumerate(ops):
-        if o[0] not in ("M", "MI", "V", "T", "TI"):
+        if o[0] in ALIAS_KINDS:
+            # is the aliasing needed at all?  the same call with two separate vectors
+            a, b = alias_slices(o)
+            plain = {"MA": ["M", a, b], "MIA": ["MI", a, b] + o[6:7], "VA": ["V", a, b] + o[6:8]}[o[0]]
+            out.append({"ops": ops[:i] + [plain] + ops[i + 1:]})
+            v = o[1]
+            for w in ([int(x / 2) for x in v], [max(-1, min(1, x)) for x in v], [abs(x) for x in v]):
+                if w != v:
+                    n = list(o)
+                    n[1] = w
+                    out.append({"ops": ops[:i] + [n] + ops[i + 1:]})
+            continue
+        if o[0] in ("X", "X2", "V2"):
+            # is the second object / the `*=` needed?  the same call as a plain V
+            out.append({"ops": ops[:i] + [["V"] + o[1:]] + ops[i + 1:]})
+        if o[0] not in ("M", "MI", "T", "TI") + INV_KINDS:
             continue
         for pos in (1, 2):
             if o[0] in ("T", "TI") and pos == 2:
@@ -343,7 +507,7 @@ def shrink(c):
             if any(x < 0 for x in v):
                 cands.append([abs(x) for x in v])
             for w in cands:
-                if o[0] == "V" and len(w) + len(o[3 - pos]) - 1 > o[3]:
+                if o[0] in INV_KINDS and len(w) + len(o[3 - pos]) - 1 > o[3]:
                     continue
                 if o[0] in ("T", "TI") and o[2] != 0 and len(w) > o[2]:
                     continue
@@ -354,7 +518,7 @@ def shrink(c):
             n = list(o)
             n[3] = [0] * len(o[3])
             out.append({"ops": ops[:i] + [n] + ops[i + 1:]})
-        if o[0] == "V" and any(o[4]):
+        if o[0] in INV_KINDS and any(o[4]):
             n = list(o)
             n[4] = [0] * len(o[4])
             out.append({"ops": ops[:i] + [n] + ops[i + 1:]})
@@ -362,6 +526,14 @@ def shrink(c):
 
 
 # ----------------------------------------------------------------------------- envelope search (implementation only)
+PATTERNS = ["all +max", "a alternating sign, b all +max", "both alternating sign", "random signs, |coef| = max",
+            "uniform in [-max, max]"]
+ROUTES = ["multiply", "fft + pointwise product + fft_inv", "multiply_into on a non-zero destination",
+          "fft, fft on one object, product (*=), fft_inv_into on a non-zero destination on a FRESH second object",
+          "one object: multiply(big), multiply(1/8-length prefixes), multiply(big) again",
+          "multiply after update_n(2n) (stride 2)", "multiply on a clone of an object that did a small product"]
+
+
 def env_configs(tier):
     kmax = 14 if tier == "quick" else 20
     samples = 300
@@ -383,6 +555,27 @@ def env_configs(tier):
                             # the other route of the property: fft, fft, pointwise product, fft_inv
                             seed += 1
                             cfgs.append(("f64", la, lb, mx, pat, seed, samples, 1))
+    # very unequal lengths INSIDE the symmetric envelope (max^2 * max(len) <= 1e12), both orders: a short vector
+    # times a long one (a block-wise repair of the known finding would be executed by exactly these)
+    i = 0
+    for k in range(10, kmax + 1):
+        for lb in ((1 << k) - 1, 1 << k, (1 << k) + 1):
+            mx = min(10 ** 6, math.isqrt(10 ** 12 // lb))
+            for la in (1, 2, 3, 7, 8, 9, 100):
+                for pat in range(5):
+                    for (x, y) in ((la, lb), (lb, la)):
+                        seed += 1
+                        i += 1
+                        cfgs.append(("f64", x, y, mx, pat, seed, samples, (0, 0, 2, 1, 0, 3)[i % 6]))
+    # accumulate-into variants, a second object, reuse, growth beyond the need, clones - at large n
+    for k in range(10, kmax + 1, 1 if tier == "quick" else 2):
+        for L in ((1 << k) - 1, 1 << k, (1 << k) + 1):
+            mx = min(10 ** 6, math.isqrt(10 ** 12 // L))
+            for route in (2, 3, 4, 5, 6):
+                for pat in (0, 3, 4):
+                    seed += 1
+                    other = (L, max(1, L - 1), max(1, L // 2 + 1))[seed % 3]
+                    cfgs.append(("f64", L, other, mx, pat, seed, samples, route))
     # f32: proportional bound max^2 * max(len) <= 1e3
     for L in sorted({1, 2, 3, 4, 5, 7, 8, 9, 15, 16, 17, 31, 32, 33, 63, 64, 65, 100, 127, 128, 129, 250, 255, 256, 257,
                      500, 511, 512, 513, 1000}):
@@ -393,9 +586,16 @@ def env_configs(tier):
             for pat in range(5):
                 seed += 1
                 cfgs.append(("f32", L, other, mx, pat, seed, samples, 0))
+                if pat in (0, 3):
+                    for route in (1, 2, 3, 4, 6):
+                        seed += 1
+                        cfgs.append(("f32", L, other, mx, pat, seed, samples, route))
     return cfgs
 
 
+# max |w[i] - (cos, sin)(2 pi i / n)| on the reviewed tree: 6.9e-16 (f64), 4.1e-7 (f32) (rounding of the argument PI * i / cur)
+TW_TOL = {"f64": 2e-15, "f32": 1.5e-6}
+KNOWN_PROBE_MAX_ERR = 1000
 KNOWN_PROBE = ("f64", 3, 262144, 577350, 0, 1, 200, 0)
 
 
@@ -409,58 +609,282 @@ def run_lines(binp, lines):
     return outs
 
 
+def run_parallel(binp, lines, workers, costs=None):
+    """one executor process per worker; lines dealt out round robin in order of decreasing cost"""
+    order = sorted(range(len(lines)), key=lambda i: -(costs[i] if costs else 0))
+    chunks = [order[i::workers] for i in range(workers)]
+    chunks = [c for c in chunks if c]
+    results = [None] * len(lines)
+    with concurrent.futures.ThreadPoolExecutor(workers) as ex:
+        for idxs, outs in zip(chunks, ex.map(lambda ix: run_lines(binp, [lines[i] for i in ix]), chunks)):
+            for i, o in zip(idxs, outs):
+                results[i] = o
+    return results
+
+
+# ----------------------------------------------------------------------------- the PUBLISHED table (rlib_fft::precision)
+LMODES = ["(L, L)", "(L-1, L)", "(L, L-1)", "(L-2, L)", "(L-1, L-1)", "(L/2+1, L/2+1)"]
+SIGNS = ["non-negative (the table's claim)", "alternating signs", "random signs", "all negative"]
+P_ROUTES = ["multiply", "multiply_into on a non-zero destination (length tot or tot+3)", "fft, fft, pointwise product, fft_inv"]
+PRES = ["fresh object", "after a small product on the same object", "after update_n(2n)"]
+BACKS = [(0, 0), (0, 1000), (1000, 0), (1000, 1000)]
+# Cells of the published table that FAIL on the reviewed tree inside their own literal claim (equal lengths L, a in the
+# row role, values in [A-back ..= A] x [B-back ..= B], multiply): keyed by (type, A, B).  They are probed on every run and
+# reported as statistics; they gate only through known_findings.txt (key "published-cell-<A>-<B>"), never silently.
+#   f64 (5e6, 5e5, L = 100): 32 of 1800 random probes wrong (e.g. `P f64 13 11 0 0 0 0 1000 0 2 221075 300`: 2 of 199
+#   coefficients off by one); the crate's own test passes only for the values its seed 42 happens to draw.
+MARGINAL_CELLS = {("f64", 5000000, 500000)}
+
+
+def parse_table(line):
+    parts = [x.split() for x in line.split("|")]
+    vals = [int(x) for x in parts[0][1:]]
+    rows = [[int(x) for x in r] for r in parts[1:]]
+    return vals, rows
+
+
+def frontier(rows):
+    """the cells rlib/fft/tests/precision.rs executes (its 'assume transitivity' rule)"""
+    n = len(rows)
+    out = []
+    for ai in range(n):
+        for bi in range(n):
+            L = rows[ai][bi]
+            if L == 0:
+                continue
+            if ai + 1 < n and rows[ai + 1][bi] == L:
+                continue
+            if bi + 1 < n and rows[ai][bi + 1] == L:
+                continue
+            out.append((ai, bi, L))
+    return out
+
+
+def table_probes(tier, ty, vals, rows):
+    """-> list of (gate, cfg).  cfg = (ty, ai, bi, lmode, swap, sign, aback, bback, route, pre, seed, samples).
+    gate: the probe lies inside what the table claims, read monotonically in the length: non-negative values,
+    lengths (L,L), (L-1,L), (L,L-1), (L-2,L), (L-1,L-1), (L/2+1,L/2+1), the operand with bound A first - or the
+    operands exchanged when the TRANSPOSED cell claims at least the same length; multiply, multiply_into, the fft route;
+    fresh or used object.  Everything else (mixed signs, exchanged operands of an asymmetric cell) is statistics."""
+    out = []
+    seed = 7000
+    for (ai, bi, L) in frontier(rows):
+        if tier == "quick" and L > 300000:
+            continue
+        big = L > 10000
+        huge = L > 300000
+        marginal = (ty, vals[ai], vals[bi]) in MARGINAL_CELLS
+        swaps = [0] + ([1] if rows[bi][ai] >= L else [])
+        grid = []
+        if not big:
+            reps = 1 if tier == "quick" else 3
+            for rep in range(reps):
+                for lmode in range(6):
+                    for bk in BACKS:
+                        for route in range(3):
+                            grid.append((lmode, bk, route, (lmode + route + rep) % 3))
+        else:
+            for bk in BACKS if (tier == "thorough" or L <= 100000) else (BACKS[0], BACKS[3]):
+                grid.append((0, bk, 0, 0))
+            for lmode in range(1, 6):
+                grid.append((lmode, BACKS[(lmode + ai) % 4], (0, 1, 0, 2, 0, 0)[lmode], 0))
+            grid += [(0, BACKS[3], 1, 0), (0, BACKS[1], 2, 0), (1, BACKS[2], 0, 1)]
+            if tier == "thorough" and not huge:
+                for lmode in range(6):
+                    for bk in BACKS:
+                        for route in range(3):
+                            grid.append((lmode, bk, route, (lmode + route) % 3))
+        for swap in swaps:
+            for (lmode, bk, route, pre) in (grid if swap == 0 or not big else grid[:6]):
+                seed += 1
+                # the fft route is not what the table was measured with: it gates up to L = 3e5 (never wrong on the reviewed
+                # tree in 2e4 probes); above that it is statistics (reviewed tree: cell 5e3 x 5e3, L = 5e6, all coefficients
+                # = 5000: 360 of 9999999 coefficients off by one through fft/fft/product/fft_inv, multiply exact)
+                gate = not marginal and not (huge and route == 2)
+                out.append((gate, (ty, ai, bi, lmode, swap, 0, bk[0], bk[1], route, pre, seed, 300)))
+        # statistics: mixed signs, and the exchanged operands where the transposed cell claims less
+        stat = [(lmode, sign, 0, route) for sign in (1, 2, 3) for lmode in ((0, 1, 2) if not big else (0,))
+                for route in ((0, 1, 2) if not big else (0,))]
+        if 1 not in swaps:
+            stat += [(lmode, 0, 1, route) for lmode in ((0, 1, 2, 3, 4) if not big else (0, 1)) for route in ((0, 1) if not big else (0,))]
+        if huge:
+            stat = stat[:1] + stat[-1:]
+        for (lmode, sign, swap, route) in stat:
+            for bk in (BACKS if not big else BACKS[:1]):
+                seed += 1
+                out.append((False, (ty, ai, bi, lmode, swap, sign, bk[0], bk[1], route, 0, seed, 300)))
+    return out
+
+
+def p_line(c):
+    return "P %s %d %d %d %d %d %d %d %d %d %d %d" % c
+
+
 def extra(ctx, known):
-    binp = ctx.bins["debug"]
+    violations, known_keys = [], []
+    kmax = 14 if ctx.tier == "quick" else 20
     cfgs = env_configs(ctx.tier)
     lines = ["E %s %d %d %d %d %d %d %d" % c for c in cfgs]
-    workers = 8
-    chunks = [list(range(i, len(lines), workers)) for i in range(workers)]
-    results = [None] * len(lines)
-    violations, known_keys = [], []
+    costs = [c[1] + c[2] for c in cfgs]
+    rel = ctx.bins.get("release", ctx.bins["debug"])
     try:
-        with concurrent.futures.ThreadPoolExecutor(workers) as ex:
-            for idxs, outs in zip(chunks, ex.map(lambda ix: run_lines(binp, [lines[i] for i in ix]), chunks)):
-                for i, o in zip(idxs, outs):
-                    results[i] = o
-        kp = run_lines(binp, ["E %s %d %d %d %d %d %d %d" % KNOWN_PROBE])[0]
+        # the release executor sees every configuration; the debug one (opt-level 2 + assertions + overflow checks) those up to 2^17
+        sel = {prof: [i for i in range(len(cfgs)) if prof == "release" or "release" not in ctx.bins or costs[i] <= (1 << 17) + 2]
+               for prof in PROFILES if prof in ctx.bins}
+        res_by_profile = {prof: (ix, run_parallel(ctx.bins[prof], [lines[i] for i in ix], 8, [costs[i] for i in ix]))
+                          for prof, ix in sel.items()}
+        kp = run_lines(ctx.bins["debug"], ["E %s %d %d %d %d %d %d %d" % KNOWN_PROBE])[0]
+        tabs = {ty: parse_table(run_lines(rel, ["PT %s" % ty])[0]) for ty in ("f64", "f32")}
+        probes = []
+        for ty in ("f64", "f32"):
+            probes += table_probes(ctx.tier, ty, *tabs[ty])
+        pres = run_parallel(rel, [p_line(c) for _, c in probes], 4 if ctx.tier == "thorough" else 8,
+                            [tabs[c[0]][1][c[1]][c[2]] for _, c in probes])
+        tw_cfgs = [(ty, k, pre) for ty in ("f64", "f32") for k in range(0, (16 if ctx.tier == "quick" else 22) + 1)
+                   for pre in ((0, 1, 2) if k % 2 == 0 or k <= 9 else (0,))]
+        tw_res = {prof: run_lines(ctx.bins[prof], ["TW %s %d %d" % c for c in tw_cfgs]) for prof in PROFILES if prof in ctx.bins}
     except RuntimeError as e:
         return {"coverage": {"envelope_search": "executor failed"},
                 "violations": [{"name": "envelope-executor", "kind": "broken-correspondence", "nofail": True,
                                 "payload": {"what": "the executor crashed in envelope mode", "log": str(e)}}]}
+    # ---- symmetric envelope
     checked = wrong_cfg = coeffs = 0
-    for c, o in zip(cfgs, results):
-        t = o.split()
-        checked += 1
-        if t[0] == "P":
-            w, n, err, first = 1, 0, -1, -1
-        else:
-            w, n, err, first = int(t[1]), int(t[2]), int(t[3]), int(t[4])
-        coeffs += n
-        if w:
-            wrong_cfg += 1
+    route_hist = {}
+    for prof, (ix, results) in res_by_profile.items():
+        for c, o in zip([cfgs[i] for i in ix], results):
+            t = o.split()
+            checked += 1
+            if t[0] == "P" or len(t) < 6:
+                w, n, err, first, modfail = 1, 0, -1, -1, 1
+            else:
+                w, n, err, first, modfail = int(t[1]), int(t[2]), int(t[3]), int(t[4]), int(t[5])
+            coeffs += n
             ty, la, lb, mx, pat, seed, smp, route = c
-            inside = mx * mx * max(la, lb) <= (10 ** 12 if ty == "f64" else 10 ** 3)
-            if len(violations) < 3:
-                violations.append({
-                    "name": "envelope-%s" % hashlib.sha256(repr(c).encode()).hexdigest()[:10], "nofail": False,
-                    "payload": {"what": "FFT::<%s>: %s returned a wrong coefficient inside the symmetric precision envelope "
-                                        "max^2*max(len) <= %s (exact i128 schoolbook reference)" % (
-                                            ty, "fft + pointwise product + fft_inv" if route else "multiply", "1e12" if ty == "f64" else "1e3"),
-                                "float": ty, "len_a": la, "len_b": lb, "max_abs": mx,
-                                "pattern": ["all +max", "a alternating sign, b all +max", "both alternating sign",
-                                            "random signs, |coef| = max", "uniform in [-max, max]"][pat],
-                                "generator_seed": seed, "wrong_of_sampled": "%d/%d" % (w, n), "max_abs_error": err,
-                                "first_wrong_index": first, "inside_symmetric_envelope": inside,
-                                "reproduce": "echo 'E %s %d %d %d %d %d %d %d' | harness/target/debug/c04" % c}})
+            route_hist[ROUTES[route]] = route_hist.get(ROUTES[route], 0) + 1
+            if w or modfail:
+                wrong_cfg += 1
+                inside = mx * mx * max(la, lb) <= (10 ** 12 if ty == "f64" else 10 ** 3)
+                if len(violations) < 3:
+                    violations.append({
+                        "name": "envelope-%s" % hashlib.sha256(repr((c, prof)).encode()).hexdigest()[:10], "nofail": False,
+                        "payload": {"what": "FFT::<%s>: %s returned a wrong coefficient inside the symmetric precision envelope "
+                                            "max^2*max(len) <= %s (exact i128 schoolbook reference on sampled coefficients; every "
+                                            "coefficient through a(x) b(x) = c(x) at three points modulo 2^61-1)" % (
+                                                ty, ROUTES[route], "1e12" if ty == "f64" else "1e3"),
+                                    "float": ty, "len_a": la, "len_b": lb, "max_abs": mx, "pattern": PATTERNS[pat], "profile": prof,
+                                    "generator_seed": seed, "wrong_of_sampled": "%d/%d" % (w, n), "max_abs_error": err,
+                                    "first_wrong_index": first, "modular_check_of_all_coefficients_failed": bool(modfail),
+                                    "inside_symmetric_envelope": inside,
+                                    "reproduce": "echo 'E %s %d %d %d %d %d %d %d' | harness/target/%s/c04" % (c + (prof,))}})
     kt = kp.split()
     kwrong = int(kt[1]) if kt[0] == "E" else 0
-    if kwrong > 0:
+    kerr = int(kt[3]) if kt[0] == "E" else -1
+    if kt[0] != "E" or kerr > KNOWN_PROBE_MAX_ERR:
+        # the known finding is a ROUNDING failure (reviewed tree: every coefficient compared, 258730 of 262146 wrong, largest
+        # error 22); a panic, a wrong length or an error of another order of magnitude is something else
+        violations.append({"name": "known-probe-changed", "nofail": False,
+                           "payload": {"what": "the input of the known finding unequal-lengths (a=[577350;3], b=[577350;262144]) no longer "
+                                               "fails the way it was recorded (rounding errors of at most a few units): " + kp,
+                                       "reproduce": "echo 'E %s %d %d %d %d %d %d %d' | harness/target/debug/c04" % KNOWN_PROBE}})
+    elif kwrong > 0:
         known_keys.append("unequal-lengths")
-    cov = {"envelope_search": {"configurations": checked, "sampled_coefficients": coeffs, "configurations_with_wrong_coefficient": wrong_cfg,
-                               "f64_bound": "max^2*max(len) <= 1e12, lengths up to 2^%d (+1)" % (14 if ctx.tier == "quick" else 20),
+    # ---- the plan tables themselves (the Coq model is FED the twiddle table, so nothing else relates it to cos / sin)
+    tw_worst = {"f64": 0.0, "f32": 0.0}
+    tw_bad = 0
+    for prof, outs in tw_res.items():
+        for c, o in zip(tw_cfgs, outs):
+            t = o.split()
+            ok = t[0] == "TW" and len(t) == 6
+            dev = float(t[1]) if ok else float("inf")
+            tw_worst[c[0]] = max(tw_worst[c[0]], dev)
+            if not ok or not (dev <= TW_TOL[c[0]]) or t[2] != "1" or t[3] != "1" or int(t[4]) != int(t[5]) + 1 or int(t[5]) != max(4, 1 << c[1]):
+                tw_bad += 1
+                if tw_bad <= 2:
+                    violations.append({
+                        "name": "tables-%s-%d-%d-%s" % (c + (prof,)), "nofail": False,
+                        "payload": {"what": "FFT::<%s>: the plan tables of an object grown to 2^%d are not the roots of unity / the bit-reversal "
+                                            "permutation: max |w[i] - (cos, sin)(2 pi i / n)| = %s (bound %g = 3x the reviewed tree), "
+                                            "w[0] = w[n] = (1, 0): %s, reversed = bit reversal: %s, lengths %s" % (
+                                                c[0], c[1], t[1] if ok else "?", TW_TOL[c[0]], t[2] if ok else "?", t[3] if ok else "?",
+                                                t[4:6] if ok else o),
+                                    "profile": prof, "reproduce": "echo 'TW %s %d %d' | harness/target/%s/c04" % (c + (prof,))}})
+    # ---- published table
+    gate_n = gate_bad = stat_n = stat_bad = 0
+    stat_cells, marginal_seen, fftroute_seen = {}, {}, {}
+    for (gate, c), o in zip(probes, pres):
+        t = o.split()
+        ty, ai, bi, lmode, swap, sign, ab, bb, route, pre, seed, smp = c
+        vals, rows = tabs[ty]
+        if t[0] != "P" or len(t) < 9:
+            bad, L, la, lb, w, n, err, first, modfail = True, rows[ai][bi], -1, -1, 1, 0, -1, -1, 1
+        else:
+            L, la, lb, w, n, err, first, modfail = [int(x) for x in t[1:9]]
+            bad = w > 0 or modfail != 0
+        cell = "%s A=%d B=%d L=%d" % (ty, vals[ai], vals[bi], L)
+        if gate:
+            gate_n += 1
+            if bad:
+                gate_bad += 1
+                if len(violations) < 5:
+                    violations.append({
+                        "name": "published-%s" % hashlib.sha256(repr(c).encode()).hexdigest()[:10], "nofail": False,
+                        "payload": {"what": "FFT::<%s>: wrong coefficient INSIDE the precision table published by the crate itself "
+                                            "(rlib_fft::precision, read from the crate at run time): cell A=%d, B=%d claims exact "
+                                            "products up to length L=%d" % (ty, vals[ai], vals[bi], L),
+                                    "float": ty, "cell": [vals[ai], vals[bi], L], "len_a": la, "len_b": lb, "lengths": LMODES[lmode],
+                                    "operands_exchanged": bool(swap), "a_values": "[%d ..= %d]" % (max(vals[ai] - ab, 0), vals[ai]),
+                                    "b_values": "[%d ..= %d]" % (max(vals[bi] - bb, 0), vals[bi]), "call": P_ROUTES[route],
+                                    "object": PRES[pre], "generator_seed": seed, "wrong_of_checked": "%d/%d" % (w, n),
+                                    "max_abs_error": err, "first_wrong_index": first,
+                                    "modular_check_of_all_coefficients_failed": bool(modfail),
+                                    "reproduce": "echo '%s' | harness/target/release/c04" % p_line(c)}})
+        else:
+            stat_n += 1
+            if bad:
+                stat_bad += 1
+                if (ty, vals[ai], vals[bi]) in MARGINAL_CELLS and sign == 0 and swap == 0:
+                    marginal_seen.setdefault(cell, []).append(p_line(c))
+                elif route == 2 and sign == 0 and swap == 0 and L > 300000:
+                    # inside the table's claim except for the route: a recorded finding (key fft-route-above-3e5), never silent
+                    fftroute_seen.setdefault(cell, []).append(p_line(c))
+                else:
+                    k = "%s | %s%s%s" % (cell, SIGNS[sign], " | operands exchanged" if swap else "",
+                                         " | fft route" if route == 2 else "")
+                    stat_cells[k] = stat_cells.get(k, 0) + 1
+    for (ty, A, B) in sorted(MARGINAL_CELLS):
+        key = "published-cell-%d-%d" % (A, B)
+        if any(k.startswith("%s A=%d B=%d " % (ty, A, B)) for k in marginal_seen) and key in known:
+            known_keys.append(key)
+    if fftroute_seen:
+        if "fft-route-above-3e5" in known:
+            known_keys.append("fft-route-above-3e5")
+        else:
+            violations.append({"name": "published-fft-route", "nofail": False,
+                               "payload": {"what": "fft, fft, pointwise product, fft_inv returned a wrong coefficient inside a cell of the "
+                                                   "published precision table with L > 3e5 (multiply itself is exact there)",
+                                           "cells": fftroute_seen}})
+    cov = {"envelope_search": {"configurations": checked, "profiles": sorted(res_by_profile), "sampled_coefficients": coeffs,
+                               "all_coefficients_checked_modulo_2^61-1": True,
+                               "configurations_with_wrong_coefficient": wrong_cfg, "by_route": route_hist,
+                               "f64_bound": "max^2*max(len) <= 1e12, lengths up to 2^%d (+1), length ratios up to 2^%d" % (kmax, kmax),
                                "f32_bound": "max^2*max(len) <= 1e3, lengths up to 1000",
                                "known_finding_probe": {"len_a": 3, "len_b": 262144, "max_abs": 577350,
-                                                       "wrong_of_sampled": "%s/%s" % (kt[1], kt[2]) if kt[0] == "E" else "panic"}}}
+                                                       "wrong_of_compared": "%s/%s" % (kt[1], kt[2]) if kt[0] == "E" else "panic",
+                                                       "max_abs_error": kerr}},
+           "plan_tables": {"objects_checked": sum(len(v) for v in tw_res.values()), "sizes": "2^0 .. 2^%d, f64 and f32, grown in one step / two steps / "
+                           "through a product" % (16 if ctx.tier == "quick" else 22), "max_abs_deviation_from_cos_sin": tw_worst,
+                           "tolerance": TW_TOL, "bad": tw_bad},
+           "published_table": {"source": "rlib_fft::precision::{VALS_TO_CHECK, CORRECT_F64_BOUNDS, CORRECT_F32_BOUNDS} as compiled into the executor",
+                               "frontier_cells": {ty: len(frontier(tabs[ty][1])) for ty in tabs},
+                               "cells_probed": len({(c[0], c[1], c[2]) for _, c in probes}),
+                               "max_length_probed": max([tabs[c[0]][1][c[1]][c[2]] for _, c in probes] + [0]),
+                               "gating_probes": gate_n, "gating_probes_wrong": gate_bad,
+                               "statistics_probes": stat_n, "statistics_probes_wrong": stat_bad,
+                               "statistics_wrong_by_cell": stat_cells,
+                               "cells_failing_inside_their_literal_claim_on_the_reviewed_tree": {
+                                   "listed": ["%s A=%d B=%d" % m for m in sorted(MARGINAL_CELLS)],
+                                   "wrong_this_run": marginal_seen},
+                               "fft_route_wrong_above_3e5_this_run": fftroute_seen}}
     return {"coverage": cov, "violations": violations, "known": known_keys}
 
 
@@ -469,18 +893,23 @@ MANIFEST = {
             "fft_inv/fft_inv_into, multiply/multiply_into), polymorphic in the scalar operations and in the twiddle oracle: "
             "c04_shape (empty operand => empty product, length |a|+|b|-1, multiply_into / fft_into / fft_inv_into ADD to the destination "
             "exactly what multiply / fft / fft_inv return) and c04_history_independent + c04_reach_closed (for ANY scalar type and oracle, "
-            "hence for binary64 bit for bit: any two reachable object states give the same product and the same transform; fft_inv_into "
-            "needs both objects at least as large as its input because it reads max_n without growing the object) hold for the float "
+            "hence for binary64 bit for bit: any two reachable object states give the same product, the same transform and the same "
+            "inverse transform, with NO size condition on the objects since /repo 23bca24 - fft_inv_into grows the object before it reads "
+            "max_n; c04_inv_old_refuted: the code before that commit returned different coefficients on a fresh object and on one of "
+            "size 8, exact Z/p instance) hold for the float "
             "instance itself; c04_exact_algebra (over a commutative scalar ring with 2 invertible, exact division by 2^k and a table with "
             "w[0]=1, w[a]w[b]=w[(a+b) mod N], w[N/2]=-1, w[N/4]=i, conj w[a]=w[N-a]: fft_internal computes the DFT, inverse after "
-            "forward is the identity, multiply = integer convolution, fft+pointwise product+fft_inv_into = convolution); the hypotheses "
+            "forward is the identity, multiply = integer convolution, fft+pointwise product+fft_inv_into = convolution, also with the inverse transform on ANY "
+            "other reachable object); the hypotheses "
             "are inhabited by an executable instance over Z/998244353 with circle-group twiddles (Examples.v, executed against the direct "
             "convolution). On every run the binary64 instance (Coq primitive floats, fed the implementation's own twiddle table through the "
             "verif hook) is compared with the Rust crate bit for bit on fft outputs and exactly on all integer outputs over call histories "
-            "(reuse after growth, *_into on non-zero destinations, lengths around powers of two, boundary coefficients of both signs), and "
+            "(reuse after growth, *_into on non-zero destinations, lengths around powers of two, boundary coefficients of both signs, "
+            "inverse transform on a second object that is fresh / smaller / cloned, aliased operands), and "
             "the integer outputs are compared in Coq with a direct integer convolution. c04_rounding_partial: the floating-point "
             "rounding-error bound inside the envelope is NOT proved; it is examined by search only (implementation against an exact i128 "
-            "schoolbook convolution at the boundary max^2*max(len) <= 1e12, f32: <= 1e3). Known finding unequal-lengths: the literal "
+            "schoolbook convolution and a modular evaluation of every coefficient, at the boundary max^2*max(len) <= 1e12, f32: <= 1e3, "
+            "and at the frontier cells of the table the crate publishes in rlib_fft::precision, read from the crate at run time). Known finding unequal-lengths: the literal "
             "envelope max^2*min(len) <= 1e12 is violated for very unequal lengths; re-confirmed on every run.",
     "level_note": "proof, partial: shape, history independence (bit-exact, all instances) and algebraic exactness are proved for the "
                   "model; the rounding envelope is search only. Trusted: Coq kernel + vm_compute (primitive floats only in executed "
